@@ -9,6 +9,7 @@ pub mod c04;
 pub mod c04b;
 pub mod c05;
 pub mod c06;
+pub mod c06b;
 pub mod c07;
 pub mod c08;
 pub mod c09;
